@@ -2,7 +2,7 @@
    list of labels it stands for.
    Only statements; every proof is `exact <lemma of Proofs.VarsFacts>`. *)
 From Coq Require Import List ZArith Bool Arith.
-From Dimod Require Import Model.Vars Model.ChkC13 Proofs.VarsFacts.
+From Dimod Require Import Model.Vars Model.ChkC13 Proofs.VarsFacts Proofs.VarsSliceFacts.
 Import ListNotations.
 
 (* ---- the invariant and the reading functions ---- *)
@@ -150,6 +150,83 @@ Theorem C13_reachable_is_list :
 Proof. exact reachable_list. Qed.
 Print Assumptions C13_reachable_is_list.
 
+(* ---- slicing: v[a:b:s] selects what list slicing selects ---- *)
+(* never an error for a non-zero step, whatever the bounds; ValueError for step 0 *)
+Theorem C13_slice_ok :
+  forall v a b s, wf v -> slice_step s <> 0%Z ->
+    exists v', getitem_slice v a b s = Ok v' /\ wf v' /\ to_list v' = slice_labels v a b s.
+Proof. exact getitem_slice_ok. Qed.
+Print Assumptions C13_slice_ok.
+
+Theorem C13_slice_step_zero : forall v a b s, slice_step s = 0%Z -> getitem_slice v a b s = Err.
+Proof. exact getitem_slice_zero. Qed.
+Print Assumptions C13_slice_step_zero.
+
+(* the selected labels are entries of the label list at positions inside it *)
+Theorem C13_slice_labels_nth :
+  forall v a b s d, slice_step s <> 0%Z ->
+    slice_labels v a b s =
+    let '(lo, hi, st) := slice_bounds v a b s in
+    map (fun z => nth (Z.to_nat z) (to_list v) d) (zrange lo hi st).
+Proof. exact slice_labels_nth. Qed.
+Print Assumptions C13_slice_labels_nth.
+
+Theorem C13_slice_indices_in_range :
+  forall v a b s z,
+    let '(lo, hi, st) := slice_bounds v a b s in
+    st <> 0%Z -> In z (zrange lo hi st) -> (0 <= z < Z.of_nat (stop v))%Z.
+Proof. exact slice_indices_in_range. Qed.
+Print Assumptions C13_slice_indices_in_range.
+
+(* range(a, b, s): the arithmetic progression from a that stops before b *)
+Theorem C13_zrange_spec :
+  forall a b s z, s <> 0%Z ->
+    (In z (zrange a b s) <->
+     exists k, (0 <= k)%Z /\ z = (a + k * s)%Z /\ (if (0 <? s)%Z then (z < b)%Z else (b < z)%Z)).
+Proof. exact zrange_in. Qed.
+Print Assumptions C13_zrange_spec.
+
+(* step 1 or omitted: a window of the list, with CPython's clipping of the bounds *)
+Theorem C13_slice_step1_is_window :
+  forall v a b s, slice_step s = 1%Z ->
+    let n := Z.of_nat (stop v) in
+    slice_labels v a b s =
+    skipn (Z.to_nat (adjust a n 1 false)) (firstn (Z.to_nat (adjust b n 1 true)) (to_list v)).
+Proof. exact slice_labels_step1. Qed.
+Print Assumptions C13_slice_step1_is_window.
+
+Theorem C13_slice_all : forall v, slice_labels v None None None = to_list v.
+Proof. exact slice_labels_all. Qed.
+Print Assumptions C13_slice_all.
+
+Theorem C13_slice_prefix :
+  forall v k, k <= stop v -> slice_labels v None (Some (Z.of_nat k)) None = firstn k (to_list v).
+Proof. exact slice_labels_prefix. Qed.
+Print Assumptions C13_slice_prefix.
+
+Theorem C13_slice_suffix :
+  forall v k, k <= stop v -> slice_labels v (Some (Z.of_nat k)) None None = skipn k (to_list v).
+Proof. exact slice_labels_suffix. Qed.
+Print Assumptions C13_slice_suffix.
+
+(* v[:-k] drops the last k labels (the case the defect fixed by 1cdf932 got wrong) *)
+Theorem C13_slice_drop_last :
+  forall v k, 0 < k <= stop v ->
+    slice_labels v None (Some (- Z.of_nat k)%Z) None = firstn (stop v - k) (to_list v).
+Proof. exact slice_labels_drop_last. Qed.
+Print Assumptions C13_slice_drop_last.
+
+Theorem C13_slice_reverse : forall v, slice_labels v None None (Some (-1)%Z) = rev (to_list v).
+Proof. exact slice_labels_reverse. Qed.
+Print Assumptions C13_slice_reverse.
+
+(* bounds beyond either end are clipped, not rejected *)
+Theorem C13_slice_clipped :
+  forall v m M, (Z.of_nat (stop v) <= m)%Z -> (Z.of_nat (stop v) <= M)%Z ->
+    slice_labels v (Some (- m)%Z) (Some M) None = to_list v.
+Proof. exact slice_labels_clipped. Qed.
+Print Assumptions C13_slice_clipped.
+
 (* ---- non-vacuity: a sparse state whose integer labels differ from their position ---- *)
 Definition C13_v0 : vars := fold_left (fun s o => fst (fst (step s o))) [OExtend [LI 3; LI 0; LA 1] false] empty.
 
@@ -172,3 +249,11 @@ Example C13_example_ops :
   relabel C13_v0 [(LI 3, LA 1)] = Err /\
   (count C13_v0 (LI 0), index C13_v0 (LI 0), index C13_v0 (LI 1)) = (true, Some 1, None).
 Proof. vm_compute. repeat split; reflexivity. Qed.
+
+(* slices of the sparse state: v[:-1], v[::-1], v[-9:9:2], v[2:0:-1] *)
+Example C13_example_slices :
+  map (fun t => match getitem_slice C13_v0 (fst (fst t)) (snd (fst t)) (snd t) with Ok w => Some (to_list w) | Err => None end)
+      [(None, Some (-1)%Z, None); (None, None, Some (-1)%Z); (Some (-9)%Z, Some 9%Z, Some 2%Z);
+       (Some 2%Z, Some 0%Z, Some (-1)%Z); (None, None, Some 0%Z)]
+  = [Some [LI 3; LI 0]; Some [LA 1; LI 0; LI 3]; Some [LI 3; LA 1]; Some [LA 1; LI 0]; None].
+Proof. vm_compute. reflexivity. Qed.
